@@ -13,14 +13,23 @@ META = {
         "the real BufferWriter and reads it back with the real BufferReader from enc ++ rest returns the same value, leaves exactly "
         "rest unread, produced exactly calc_size bytes where a size is reported, and a value outside the length / range limit is "
         "rejected before anything is written. The combinator, reader and writer bodies are inlined from /repo (struct modelled "
-        "exactly). BufferReader.seek/read_bytes bounds are proved as ADT contracts. These are instance lemmas (concrete child specs), "
-        "not lemmas over an abstract child: composition for arbitrary spec trees is decided only in the bounded tier, which generates "
+        "exactly). BufferReader.seek/read_bytes bounds are proved as ADT contracts. These are instance lemmas (concrete child specs). "
+        "With ABSTRACT children (any child spec; its own serialize / deserialize an external), the framing control of the containers is "
+        "proved as ghost call-log obligations on the real bodies: Collection writes its length prefix (iff it has one) with the number of "
+        "entries, then every entry exactly once with the entry spec, rejects a wrong fixed length, and reads back the prefix and then "
+        "exactly that many (or the fixed number of) entries, each appended once; Template writes / reads every member once, in "
+        "declaration order, looked up / stored under its own name (an absent optional member of a skip_missing template is left out); "
+        "OptionalPrefixed writes the presence byte first and the value iff present, and reads the value iff the byte is set; IfPresent "
+        "writes iff not None; Adapter sends exactly encode(val) to its child and returns decode of exactly what the child read, in the "
+        "reader's plain-data mode. That these per-combinator facts compose to read(write(v)) == v for arbitrary spec trees is not stated as "
+        "a lemma: whole-tree round trips are decided only in the bounded tier, which generates "
         "spec trees from the combinator grammar to depth 4 x values x endianness x pod x trailing bytes, and enumerates calc_size over "
         "every live spec object."),
     "trusted_base": [
         "struct pack/unpack: exact model for integer formats; F32/F64, str codecs, numpy, dataclass reflection: bounded tier only",
         "ParseContext construction: external (no effect on the bytes)",
-        "Collection / Template / switches / TypedBytes / BitField: bounded tier only (loops over symbolic-length values, dict dispatch)",
+        "switches / TypedBytes wrappers / Tuple / dataclass reflection: bounded tier only; Collection / Template / OptionalPrefixed / IfPresent / "
+        "Adapter: control proved with abstract children, their values are unmodelled",
     ],
 }
 
@@ -42,6 +51,8 @@ REJECT = """def reject(spec, v, endian):
 
 def register(reg):
     import hippolyzer.lib.base.serialization as se
+    from contracts import c08b_contracts
+    c08b_contracts.register_p2(reg, PID)
     reg_buffers(reg)
     reg.add_class(ClassDecl("Reader", fields={"endianness": "Str", "pod": "Bool"}, ctor=(SE_REL, "Reader.__init__")))
     reg.classes["BufferReader"].supers = ["Reader"]
